@@ -8,8 +8,8 @@ import (
 
 	"github.com/wollac/iota-crypto-demo/pkg/bech32"
 
-	rb "verifharness/ref/bech32"
 	"verifharness/core"
+	rb "verifharness/ref/bech32"
 )
 
 func init() { core.Register(core.Check{ID: "C04", Level: "exploration", Run: runC04}) }
